@@ -75,10 +75,12 @@ func runC02(r *oblig.Report) {
 	r.Rule("R1.3", "instance-table", "literal / enum / operator spelling tables agree", 20)
 	r.Rule("R1.1", "instance-table", "consumers handle every required variant", 6)
 	r.Rule("R2.1", "instance-table", "the printer does not write its input", 1)
+	r.Rule("C02.7", "instance-table", "no success with empty text unless the input is empty", 8)
 	e5path.ValidatorGuard(c.P, r, "R5.1")
 	e5path.FirstPositionRecursion(c.P, r, "C02.1b")
 	e5path.ErrorConstructors(c.P, r, "R5.5", fs, []string{"UnsupportedDSLNestingError", "ConditionNameDoesntMatchError", "ConditionParamMissingGenericTypeError"})
 	e5path.HoistShape(c.P, r, "C02.4")
+	e5path.NoEmptySuccess(c.P, r, "C02.7", fs)
 	e5path.CompleteIteration(c.P, r, "R1.6", []string{"transformer.parseUnion", "transformer.parseIntersection", "transformer.parseTypeRestrictions"})
 	e5path.AllPartsPrinted(c.P, r, "C02.6")
 	e1variants.EnumTables(c.P, r, "R1.3", w.LexerG, true)
